@@ -85,7 +85,7 @@ func (r ReceiverReport) Marshal() ([]byte, error) {
 		pe = append(pe, 0)
 	}
 
-	rawPacket = append(rawPacket, pe...)
+	copy(packetBody[ssrcLength+receptionReportLength*len(r.Reports):], pe)
 
 	hData, err := r.Header().Marshal()
 	if err != nil {
@@ -163,7 +163,7 @@ func (r *ReceiverReport) MarshalSize() int {
 	for _, rep := range r.Reports {
 		repsLength += rep.len()
 	}
-	return headerLength + ssrcLength + repsLength
+	return headerLength + ssrcLength + repsLength + len(r.ProfileExtensions) + getPadding(len(r.ProfileExtensions))
 }
 
 // Header returns the Header associated with this packet.
@@ -171,7 +171,7 @@ func (r *ReceiverReport) Header() Header {
 	return Header{
 		Count:  uint8(len(r.Reports)),
 		Type:   TypeReceiverReport,
-		Length: uint16((r.MarshalSize()/4)-1) + uint16(getPadding(len(r.ProfileExtensions))),
+		Length: uint16((r.MarshalSize() / 4) - 1),
 	}
 }
 
